@@ -236,6 +236,16 @@ def body_index():
         for fn in sorted(os.listdir(udir)):
             if fn.endswith(".vrs") and fn[:-4] in reg:      # only units that are actually run
                 scan(os.path.join(udir, fn), fn[:-4])
+        # functions whose contract is proved on the real code by a complete (loop-free, full-domain) Kani unit
+        kdir = os.path.join(VERIF, "contracts", "kani")
+        for fn in sorted(os.listdir(kdir)):
+            if fn.endswith(".json") and fn[:-5] in reg:
+                for h in json.load(open(os.path.join(kdir, fn))).get("harnesses", []):
+                    if h.get("item") and h.get("label", "").startswith("proved-complete"):
+                        idx.setdefault(assemble.norm_key(h["item"]), [])
+                        tag = fn[:-5] + " (Kani, complete)"
+                        if tag not in idx[assemble.norm_key(h["item"])]:
+                            idx[assemble.norm_key(h["item"])].append(tag)
         _body_index = idx
     return _body_index
 
